@@ -13,17 +13,18 @@ from . import C06, C07
 
 LEVEL_TEXT = ('static analysis: (D1) every exclude file is subtracted through subtract(), whose non-nested-subtrahend precondition is established'
               ' by merge() (rule of C06-D1), merge() groups by the stated predicate and leaves nothing unmerged on its fast path (C06-D3 / D3b), '
-              'and exclusion is per sequence (chromosome pairing of by_shared_chroms, C07-D6); (D2) join_regions interpreted on three symbolic '
-              'regions of one chromosome plus one of another, the two gaps placed below / at / above the minimum gap size: neighbours are joined '
-              '<=> gap < minimum, otherwise the previous region is emitted unchanged and a new one started; the last region of every chromosome '
-              'is always emitted; nothing is joined across chromosomes; a minimum of None counts as 0; (D2b) get_regions interpreted on 275 '
-              'literal FASTA texts -- every sequence over {A, N} up to 6 bases at line widths 1-4 and unbroken, plus two- and three-record files '
-              'with empty, all-N and description-bearing records -- reports exactly the maximal non-N runs of each record; (D3) do_access runs '
-              'scan -> (contig filter iff skip_noncanonical) -> subtract each exclude file in order -> join with the given minimum gap, and the '
-              "contig filter keeps exactly the names the package's contig rule calls canonical; (D4) in the FASTA scanner the run-start / cursor "
-              'positions are only ever tested with `is None` / `is not None`, never for truth (a run starting at offset 0 is a run). Does not '
-              'decide the line scanner beyond that scope (longer lines, lower-case or other IUPAC letters) nor the contents of the contig-name '
-              'pattern beyond the kinds the property names (C12-D5 table).')
+              'and exclusion is per sequence (chromosome pairing of by_shared_chroms, C07-D6), subtract() is exact on literal tables incl. '
+              'abutting exclusions (C06-D1b); (D2) join_regions interpreted on three symbolic regions of one chromosome plus one of another, the '
+              'two gaps placed below / at / above the minimum gap size: neighbours are joined <=> gap < minimum, otherwise the previous region is'
+              ' emitted unchanged and a new one started; the last region of every chromosome is always emitted; nothing is joined across '
+              'chromosomes; a minimum of None counts as 0; (D2b) get_regions interpreted on 275 literal FASTA texts -- every sequence over {A, N}'
+              ' up to 6 bases at line widths 1-4 and unbroken, plus two- and three-record files with empty, all-N and description-bearing records'
+              ' -- reports exactly the maximal non-N runs of each record; (D3) do_access runs scan -> (contig filter iff skip_noncanonical) -> '
+              'subtract each exclude file in order -> join with the given minimum gap, and the contig filter keeps exactly the names the '
+              "package's contig rule calls canonical; (D4) in the FASTA scanner the run-start / cursor positions are only ever tested with `is "
+              'None` / `is not None`, never for truth (a run starting at offset 0 is a run). Does not decide the line scanner beyond that scope '
+              '(longer lines, lower-case or other IUPAC letters) nor the contents of the contig-name pattern beyond the kinds the property names '
+              '(C12-D5 table).')
 TECHNIQUE = ('abstract interpretation of the join loop over gap order positions; recorded-summary interpretation of the stage order; None-vs-'
              'zero truthiness lint; bounded exhaustive interpretation of the scanner on literal texts; shared precondition rule')
 
